@@ -1,10 +1,25 @@
 package paths
 
-// code->spec for graph/path/dynamic.DStarLite: random positive-weight worlds,
-// the documented replanning loop (Step, change edge costs, UpdateWorld) with the
-// planner's answers logged after every action. Judged by ShortestPathTrace.tla.
+// code->spec for graph/path/dynamic.DStarLite: random worlds, the documented
+// replanning loop (Step, change edge costs, UpdateWorld) with the planner's
+// answers logged after every action. Judged by ShortestPathTrace.tla.
+//
+// zero=none      strictly positive weights (the first version of this recorder)
+// zero=gate      zero-weight edges into and out of the goal (free gates, zero-weight
+//                cycles through the goal), every other edge positive; costs next to
+//                the goal are raised and dropped (also to and from 0), the edge the
+//                planner currently uses is raised or removed (cost +Inf) and edges
+//                come back, Step() interleaved
+// zero=interior  additionally zero-weight edges between other nodes, laid out along a
+//                random node order so that every zero-weight cycle passes through the
+//                goal
+// The class of every world is stated in its "graph" event and checked by the
+// specification. A call that does not return within the watchdog limit is a failure
+// with its own signature (...:hang) and ends the recording (the goroutine is leaked
+// and may allocate without bound).
 
 import (
+	"encoding/json"
 	"fmt"
 	"math"
 	"math/rand"
@@ -21,15 +36,182 @@ import (
 
 func init() {
 	core.RegisterRecord("path-dstar", recordDStar)
+	core.RegisterReplay("path-dstar", replayDHist)
+}
+
+// dhist is the self-contained history of one recorded planner: the failure case of a call that
+// hung or panicked (what a wrong answer is, only the specification can say: those are reported
+// through the trace). replayDHist runs it again alone.
+type dhist struct {
+	K    string     `json:"k"` // "dhist"
+	Zero string     `json:"zero"`
+	N    int        `json:"n"`
+	IDs  []int64    `json:"ids"` // real id of model node i+1
+	E    [][3]int64 `json:"e"`   // the first world: u, v, cost (model nodes from 1; cost -1: weight +Inf)
+	S    int        `json:"s"`
+	T    int        `json:"t"`
+	Ops  []dop      `json:"ops"`
+}
+
+type dop struct {
+	Op string     `json:"op"` // "new" | "path" | "step" | "update"
+	Ch [][3]int64 `json:"ch,omitempty"`
+}
+
+func costOf(c int64) float64 {
+	if c < 0 {
+		return math.Inf(1)
+	}
+	return float64(c)
+}
+
+func replayDHist(in *core.Lines, args []string, seed int64, sum *core.Summary) error {
+	const limit = 3 * time.Second
+	for {
+		b, ok := in.Next()
+		if !ok {
+			return nil
+		}
+		var h dhist
+		if err := json.Unmarshal(b, &h); err != nil || h.K != "dhist" {
+			continue
+		}
+		sum.Cases++
+		sum.Nontrivial++
+		sigp := "path:DStarLite:"
+		switch h.Zero {
+		case "gate":
+			sigp += "zero-gate:"
+		case "interior":
+			sigp += "zero-interior:"
+		}
+		g := simple.NewWeightedDirectedGraph(0, math.Inf(1))
+		for _, id := range h.IDs {
+			g.AddNode(simple.Node(id))
+		}
+		edge := func(c [3]int64) simple.WeightedEdge {
+			return simple.WeightedEdge{F: simple.Node(h.IDs[c[0]-1]), T: simple.Node(h.IDs[c[1]-1]), W: costOf(c[2])}
+		}
+		for _, c := range h.E {
+			g.SetWeightedEdge(edge(c))
+		}
+		var d *dynamic.DStarLite
+		for i, op := range h.Ops {
+			var f func()
+			switch op.Op {
+			case "new":
+				f = func() {
+					d = dynamic.NewDStarLite(simple.Node(h.IDs[h.S-1]), simple.Node(h.IDs[h.T-1]), g, path.NullHeuristic, simple.NewWeightedDirectedGraph(0, math.Inf(1)))
+				}
+			case "path":
+				f = func() { d.Path() }
+			case "step":
+				f = func() { d.Step(); d.Here().ID() }
+			case "update":
+				var es []graph.Edge
+				for _, c := range op.Ch {
+					g.SetWeightedEdge(edge(c))
+					es = append(es, g.Edge(h.IDs[c[0]-1], h.IDs[c[1]-1]))
+				}
+				f = func() { d.UpdateWorld(es) }
+			default:
+				continue
+			}
+			o := core.CallTimeout(limit, f)
+			if o.Hung {
+				sum.Fail(sigp+"hang", fmt.Sprintf("operation %d (%s) of the history did not return within %v: n=%d start=%d goal=%d first world %v operations %v", i+1, op.Op, limit, h.N, h.S, h.T, h.E, h.Ops), h)
+				return nil // the leaked goroutine keeps running
+			}
+			if o.Panicked {
+				sum.Fail(sigp+"panic", fmt.Sprintf("operation %d (%s) of the history panicked (%s): n=%d start=%d goal=%d first world %v operations %v", i+1, op.Op, o.Text, h.N, h.S, h.T, h.E, h.Ops), h)
+				break
+			}
+		}
+	}
+}
+
+// recordSmallestInterior logs the smallest history of the zero=interior class that was found to
+// separate planners: three nodes, one zero-weight edge between two nodes other than the goal
+// (3 -> 1), one cost increase next to the goal. Like every other history it is only logged.
+func recordSmallestInterior(out *core.Out, sum *core.Summary) {
+	g := simple.NewWeightedDirectedGraph(0, math.Inf(1))
+	w := [][3]int64{{1, 2, 1}, {2, 3, 2}, {3, 1, 0}, {3, 2, 2}}
+	id := func(m int64) int64 { return m * 10 }
+	emit := func(r string) {
+		in := [][][2]int64{{}, {}, {}}
+		ou := [][]int64{{}, {}, {}}
+		for _, e := range w {
+			ou[e[0]-1] = append(ou[e[0]-1], e[1])
+			in[e[1]-1] = append(in[e[1]-1], [2]int64{e[0], e[2]})
+		}
+		out.Emit(ev{"op": "graph", "r": r, "n": 3, "dir": true, "in": in, "out": ou, "goal": 2})
+	}
+	for _, e := range w {
+		g.SetWeightedEdge(simple.WeightedEdge{F: simple.Node(id(e[0])), T: simple.Node(id(e[1])), W: float64(e[2])})
+	}
+	emit("dstar-zero0")
+	sum.Traces++
+	var d *dynamic.DStarLite
+	logPath := func() bool {
+		var p []graph.Node
+		var pw float64
+		o := core.CallTimeout(3*time.Second, func() {
+			if d == nil {
+				d = dynamic.NewDStarLite(simple.Node(id(3)), simple.Node(id(2)), g, path.NullHeuristic, simple.NewWeightedDirectedGraph(0, math.Inf(1)))
+			}
+			p, pw = d.Path()
+		})
+		if o.Hung {
+			sum.Fail("path:DStarLite:zero-interior:hang", "the three-node history (1->2:1 2->3:2 3->1:0 3->2:2, start 3, goal 2, then 1->2 := 4) did not return", nil)
+			return false
+		}
+		ms := []int64{}
+		for _, x := range p {
+			ms = append(ms, x.ID()/10)
+		}
+		out.Emit(ev{"op": "dpath", "r": "DStarLite.Path", "here": 3, "goal": 2, "panic": o.Panicked, "w": toExt(pw), "p": ms})
+		return !o.Panicked
+	}
+	if !logPath() {
+		return
+	}
+	w[0][2] = 4
+	g.SetWeightedEdge(simple.WeightedEdge{F: simple.Node(id(1)), T: simple.Node(id(2)), W: 4})
+	emit("dstar-zero")
+	if o := core.CallTimeout(3*time.Second, func() { d.UpdateWorld([]graph.Edge{g.Edge(id(1), id(2))}) }); o.Hung || o.Panicked {
+		sum.Fail("path:DStarLite:zero-interior:update", "UpdateWorld hung or panicked on the three-node history: "+o.Text, nil)
+		return
+	}
+	logPath()
+}
+
+// hereOf calls Here() under recover: a planner whose current node was lost (nil) must become a
+// reported failure, not a crash of the recorder.
+func hereOf(d *dynamic.DStarLite) (id int64, ok bool) {
+	o := core.Call(func() { id = d.Here().ID() })
+	return id, !o.Panicked
 }
 
 func recordDStar(out *core.Out, args []string, seed int64, sum *core.Summary) error {
 	worlds, _ := strconv.Atoi(argOf(args, "worlds", "40"))
 	rounds, _ := strconv.Atoi(argOf(args, "rounds", "8"))
 	maxn, _ := strconv.Atoi(argOf(args, "maxn", "9"))
+	zero := argOf(args, "zero", "none")
 	rng := rand.New(rand.NewSource(seed*104729 + 5))
-	const limit = 30 * time.Second
+	limit := 30 * time.Second
+	sigp, tag0, tag := "path:DStarLite:", "dstar-world", "dstar-world"
+	switch zero {
+	case "gate":
+		sigp, tag0, tag, limit = "path:DStarLite:zero-gate:", "dstar-gate0", "dstar-gate", 3*time.Second
+	case "interior":
+		sigp, tag0, tag, limit = "path:DStarLite:zero-interior:", "dstar-zero0", "dstar-zero", 3*time.Second
+	}
+	const removed = -1 // cost of an edge that was removed (weight +Inf in the real graph)
 	for wi := 0; wi < worlds; wi++ {
+		if zero == "interior" && wi == 0 {
+			recordSmallestInterior(out, sum)
+			continue
+		}
 		n := 3 + rng.Intn(maxn-2)
 		ids := make([]int64, n)
 		r2m := map[int64]int64{}
@@ -44,7 +226,16 @@ func recordDStar(out *core.Out, args []string, seed int64, sum *core.Summary) er
 		}
 		set := func(u, v int, c int64) {
 			w[[2]int{u, v}] = c
-			g.SetWeightedEdge(simple.WeightedEdge{F: simple.Node(ids[u]), T: simple.Node(ids[v]), W: float64(c)})
+			fc := float64(c)
+			if c == removed {
+				fc = math.Inf(1)
+			}
+			g.SetWeightedEdge(simple.WeightedEdge{F: simple.Node(ids[u]), T: simple.Node(ids[v]), W: fc})
+		}
+		change := func(u, v int, c int64, changes *[]graph.Edge, rec *[][3]int64) {
+			set(u, v, c)
+			*changes = append(*changes, g.Edge(ids[u], ids[v]))
+			*rec = append(*rec, [3]int64{int64(u + 1), int64(v + 1), c})
 		}
 		grid := wi%3 == 2 && n >= 4
 		if grid {
@@ -80,7 +271,8 @@ func recordDStar(out *core.Out, args []string, seed int64, sum *core.Summary) er
 				}
 			}
 		}
-		emitWorld := func() {
+		var t int
+		emitWorld := func(r string) {
 			in := make([][][2]int64, n)
 			ou := make([][]int64, n)
 			for i := 0; i < n; i++ {
@@ -88,13 +280,13 @@ func recordDStar(out *core.Out, args []string, seed int64, sum *core.Summary) er
 			}
 			for u := 0; u < n; u++ { // deterministic order
 				for v := 0; v < n; v++ {
-					if c, ok := w[[2]int{u, v}]; ok {
+					if c, ok := w[[2]int{u, v}]; ok && c != removed {
 						ou[u] = append(ou[u], int64(v+1))
 						in[v] = append(in[v], [2]int64{int64(u + 1), c})
 					}
 				}
 			}
-			out.Emit(ev{"op": "graph", "r": "dstar-world", "n": n, "dir": true, "in": in, "out": ou})
+			out.Emit(ev{"op": "graph", "r": r, "n": n, "dir": true, "in": in, "out": ou, "goal": t + 1})
 		}
 		models := func(p []graph.Node) []int64 {
 			o := make([]int64, 0, len(p))
@@ -103,81 +295,223 @@ func recordDStar(out *core.Out, args []string, seed int64, sum *core.Summary) er
 			}
 			return o
 		}
-		s, t := rng.Intn(n), rng.Intn(n)
+		s := rng.Intn(n)
+		t = rng.Intn(n)
 		if wi%3 != 1 {
 			t = (s + n/2) % n // far apart in rings and grids
 		}
-		emitWorld()
+		// where a zero weight is allowed, and the costs an update may choose
+		rank := rng.Perm(n)
+		okZero := func(u, v int) bool {
+			switch {
+			case zero == "none":
+				return false
+			case u == t || v == t:
+				return true
+			}
+			return zero == "interior" && rank[u] > rank[v]
+		}
+		newCost := func(u, v int) int64 {
+			r := rng.Intn(16)
+			switch {
+			case zero == "none":
+				if rng.Intn(4) == 0 {
+					return 50
+				}
+				return int64(1 + rng.Intn(9))
+			case r < 5 && okZero(u, v):
+				return 0
+			case r == 14:
+				return 50
+			case r == 15:
+				return removed
+			}
+			return int64(1 + rng.Intn(9))
+		}
+		if zero != "none" {
+			var keys [][2]int
+			for u := 0; u < n; u++ {
+				for v := 0; v < n; v++ {
+					if _, ok := w[[2]int{u, v}]; ok {
+						keys = append(keys, [2]int{u, v})
+					}
+				}
+			}
+			for _, k := range keys {
+				if okZero(k[0], k[1]) && rng.Intn(5) < 2 {
+					set(k[0], k[1], 0)
+				}
+			}
+			if n > 1 && rng.Intn(3) != 0 { // a free two-way gate at the goal
+				u := (t + 1 + rng.Intn(n-1)) % n
+				set(u, t, 0)
+				set(t, u, 0)
+			}
+		}
+		emitWorld(tag0)
 		sum.Traces++
+		hist := &dhist{K: "dhist", Zero: zero, N: n, IDs: append([]int64(nil), ids[:n]...), S: s + 1, T: t + 1, E: [][3]int64{}}
+		for u := 0; u < n; u++ {
+			for v := 0; v < n; v++ {
+				if c, ok := w[[2]int{u, v}]; ok {
+					hist.E = append(hist.E, [3]int64{int64(u + 1), int64(v + 1), c})
+				}
+			}
+		}
+		did := func(op string, ch [][3]int64) { hist.Ops = append(hist.Ops, dop{Op: op, Ch: ch}) }
+		did("new", nil)
 		var d *dynamic.DStarLite
 		o := core.CallTimeout(limit, func() {
 			d = dynamic.NewDStarLite(simple.Node(ids[s]), simple.Node(ids[t]), g, path.NullHeuristic, simple.NewWeightedDirectedGraph(0, math.Inf(1)))
 		})
-		if o.Hung || o.Panicked {
-			sum.Fail("path:DStarLite:new", fmt.Sprintf("NewDStarLite hung or panicked: %s (world %d seed %d)", o.Text, wi, seed), nil)
+		if o.Hung {
+			sum.Fail(sigp+"hang", fmt.Sprintf("NewDStarLite did not return within %v (world %d of the recording, seed %d, zero=%s)", limit, wi, seed, zero), hist)
+			return nil
+		}
+		if o.Panicked {
+			sum.Fail(sigp+"new", fmt.Sprintf("NewDStarLite panicked: %s (world %d seed %d)", o.Text, wi, seed), hist)
 			continue
 		}
+		hung := false
+		var lastPath []graph.Node
 		logPath := func() bool {
-			var p []graph.Node
 			var pw float64
+			lastPath = nil
+			var p []graph.Node
+			did("path", nil)
 			o := core.CallTimeout(limit, func() { p, pw = d.Path() })
 			if o.Hung {
-				sum.Fail("path:DStarLite:hang", fmt.Sprintf("Path() did not return (world %d seed %d)", wi, seed), nil)
+				sum.Fail(sigp+"hang", fmt.Sprintf("Path() did not return within %v (world %d of the recording, seed %d, zero=%s)", limit, wi, seed, zero), hist)
+				hung = true
 				return false
 			}
-			out.Emit(ev{"op": "dpath", "r": "DStarLite.Path", "here": r2m[d.Here().ID()], "goal": t + 1, "panic": o.Panicked, "w": toExt(pw), "p": models(p)})
+			lastPath = p
+			hid, ok := hereOf(d)
+			if !ok {
+				sum.Fail(sigp+"here-panic", fmt.Sprintf("Here() panicked: the planner lost its current node (world %d of the recording, seed %d, zero=%s)", wi, seed, zero), hist)
+				return false
+			}
+			out.Emit(ev{"op": "dpath", "r": "DStarLite.Path", "here": r2m[hid], "goal": t + 1, "panic": o.Panicked, "w": toExt(pw), "p": models(p)})
 			return !o.Panicked
 		}
 		if !logPath() {
+			if hung {
+				return nil
+			}
 			continue
 		}
 		for round := 0; round < rounds; round++ {
-			from := r2m[d.Here().ID()]
-			var ret bool
-			o := core.CallTimeout(limit, func() { ret = d.Step() })
-			if o.Hung {
-				sum.Fail("path:DStarLite:hang", fmt.Sprintf("Step() did not return (world %d seed %d)", wi, seed), nil)
-				break
-			}
-			here := from
-			if !o.Panicked {
-				here = r2m[d.Here().ID()]
-			}
-			out.Emit(ev{"op": "dstep", "r": "DStarLite.Step", "from": from, "here": here, "goal": t + 1, "ret": ret, "panic": o.Panicked})
-			if o.Panicked || !ret {
-				break
-			}
-			// change 1..3 edge costs (raise, lower, block with a large cost, or add an edge)
-			var changes []graph.Edge
-			for c := 1 + rng.Intn(3); c > 0; c-- {
-				u, v := rng.Intn(n), rng.Intn(n)
-				if u == v {
-					continue
+			// zero families: one update in three comes without a step in between
+			if zero == "none" || rng.Intn(3) != 0 {
+				hid, ok := hereOf(d)
+				if !ok {
+					sum.Fail(sigp+"here-panic", fmt.Sprintf("Here() panicked: the planner lost its current node (world %d of the recording, seed %d, zero=%s)", wi, seed, zero), hist)
+					break
 				}
-				if _, ok := w[[2]int{u, v}]; !ok && rng.Intn(3) != 0 {
-					// prefer existing edges: pick one at random
-					for k := range w {
-						u, v = k[0], k[1]
+				from := r2m[hid]
+				var ret bool
+				did("step", nil)
+				o = core.CallTimeout(limit, func() { ret = d.Step() })
+				if o.Hung {
+					sum.Fail(sigp+"hang", fmt.Sprintf("Step() did not return within %v (world %d of the recording, seed %d, zero=%s)", limit, wi, seed, zero), hist)
+					return nil
+				}
+				here := from
+				if !o.Panicked {
+					if hid, ok = hereOf(d); !ok {
+						sum.Fail(sigp+"here-panic", fmt.Sprintf("Here() panicked after Step() = %v at model node %d: the planner lost its current node (world %d of the recording, seed %d, zero=%s)", ret, from, wi, seed, zero), hist)
 						break
 					}
+					here = r2m[hid]
 				}
-				nc := int64(1 + rng.Intn(9))
-				if rng.Intn(4) == 0 {
-					nc = 50
+				out.Emit(ev{"op": "dstep", "r": "DStarLite.Step", "from": from, "here": here, "goal": t + 1, "ret": ret, "panic": o.Panicked})
+				sum.Count("steps", 1)
+				if o.Panicked {
+					break
 				}
-				set(u, v, nc)
-				changes = append(changes, g.Edge(ids[u], ids[v]))
+				if !ret && (zero == "none" || here == int64(t+1)) {
+					break // at the goal (zero families go on when the goal is merely cut off: edges come back)
+				}
+			}
+			// change 1..3 edge costs (raise, lower, block with a large cost, add or remove an edge)
+			var changes []graph.Edge
+			var chrec [][3]int64
+			if zero == "none" {
+				for c := 1 + rng.Intn(3); c > 0; c-- {
+					u, v := rng.Intn(n), rng.Intn(n)
+					if u == v {
+						continue
+					}
+					if _, ok := w[[2]int{u, v}]; !ok && rng.Intn(3) != 0 {
+						// prefer existing edges: pick one at random
+						for k := range w {
+							u, v = k[0], k[1]
+							break
+						}
+					}
+					change(u, v, newCost(u, v), &changes, &chrec)
+				}
+			} else {
+				var keys, intoGoal [][2]int
+				for u := 0; u < n; u++ {
+					for v := 0; v < n; v++ {
+						if _, ok := w[[2]int{u, v}]; ok {
+							keys = append(keys, [2]int{u, v})
+							if v == t {
+								intoGoal = append(intoGoal, [2]int{u, v})
+							}
+						}
+					}
+				}
+				for c := 1 + rng.Intn(3); c > 0; c-- {
+					u, v := rng.Intn(n), rng.Intn(n)
+					switch r := rng.Intn(12); {
+					case r < 4 && len(intoGoal) > 0: // next to the goal
+						k := intoGoal[rng.Intn(len(intoGoal))]
+						u, v = k[0], k[1]
+					case r < 7 && len(lastPath) > 1: // an edge of the plan the planner holds: raise or remove it
+						i := 0
+						if rng.Intn(2) == 0 {
+							i = rng.Intn(len(lastPath) - 1)
+						}
+						u, v = int(r2m[lastPath[i].ID()])-1, int(r2m[lastPath[i+1].ID()])-1
+						old := w[[2]int{u, v}]
+						nc := int64(removed)
+						if rng.Intn(2) == 0 && old != removed {
+							nc = old + int64(1+rng.Intn(9))
+						}
+						change(u, v, nc, &changes, &chrec)
+						sum.Count("plan-edge-raised-or-removed", 1)
+						continue
+					case r < 11 && len(keys) > 0: // an existing (or removed) edge
+						k := keys[rng.Intn(len(keys))]
+						u, v = k[0], k[1]
+					}
+					if u == v {
+						continue
+					}
+					change(u, v, newCost(u, v), &changes, &chrec)
+				}
 			}
 			if len(changes) == 0 {
 				continue
 			}
-			emitWorld()
+			emitWorld(tag)
+			sum.Count("updates", 1)
+			did("update", chrec)
 			o = core.CallTimeout(limit, func() { d.UpdateWorld(changes) })
-			if o.Hung || o.Panicked {
-				sum.Fail("path:DStarLite:update", fmt.Sprintf("UpdateWorld hung or panicked: %s (world %d seed %d)", o.Text, wi, seed), nil)
+			if o.Hung {
+				sum.Fail(sigp+"hang", fmt.Sprintf("UpdateWorld did not return within %v (world %d of the recording, seed %d, zero=%s)", limit, wi, seed, zero), hist)
+				return nil
+			}
+			if o.Panicked {
+				sum.Fail(sigp+"update", fmt.Sprintf("UpdateWorld panicked: %s (world %d seed %d)", o.Text, wi, seed), hist)
 				break
 			}
 			if !logPath() {
+				if hung {
+					return nil
+				}
 				break
 			}
 		}
